@@ -33,7 +33,16 @@ fn sources(lens: &[u64], bads: &[(u64, u64, u64)]) -> Result<Vec<TrainDataGenera
         if !std::path::Path::new(&path).exists() {
             let mut f = std::fs::File::create(&path).map_err(|e| e.to_string())?;
             for i in 0..n {
-                let line = if is_bad(bads, k as u64, i) { format!("bad {k}-{i}") } else { format!("{{\"input\": \"{k}-{i}\"}}") };
+                // lines that give no item: not JSON, JSON without the key 'input', JSON that is not an object
+                let line = if is_bad(bads, k as u64, i) {
+                    match (i + k as u64) % 3 {
+                        0 => format!("bad {k}-{i}"),
+                        1 => format!("{{\"text\": \"bad {k}-{i}\"}}"),
+                        _ => format!("[\"bad {k}-{i}\"]"),
+                    }
+                } else {
+                    format!("{{\"input\": \"{k}-{i}\"}}")
+                };
                 let end = match unterminated {
                     Some(m) if i + 1 == n => if m == 1 { " " } else { "" },
                     _ => "\n",
